@@ -1,8 +1,11 @@
 (* C27 — same-named classes in different namespaces do not interfere.
    Proved on the model of the ancestor walk (Model/Lookup.v): classes and inheritance edges registered under nodes
    that the walk from the receiver's class cannot meet — a class of the same short name in another namespace is
-   another node — change no lookup.  Wrapping in a module is exercised end to end.  Proofs in LookupP.v. *)
-From RT Require Import Model.Lookup Proofs.LookupP.
+   another node — change no lookup (C27_decoy), and the walk commutes with every consistent renaming of the nodes
+   (C27_rename), in particular with the renaming `module M ... end` performs on the frames of a group that mentions
+   no configured class (C27_wrap: frame F becomes M or M::F, base/t_frame.go CalculateFrame).  The frame computation
+   itself and constant lookup are exercised end to end.  Proofs in LookupP.v and LookupRenameP.v. *)
+From RT Require Import Model.Lookup Proofs.LookupP Proofs.LookupRenameP.
 
 Theorem C27_decoy : forall has builtin m d f static uv n,
   (forall x, In x uv -> ~ In x (map fst d)) ->
@@ -17,4 +20,37 @@ Example C27_example :
   let d := [(("", "Gauge"), [{| pn_frame := ""; pn_class := "Sensor"; pn_include := false; pn_extend := false |}])] in
   plookup has [] 3 (m ++ d) false [("M", "Gauge")] ("M", "Gauge") = Some (None, []) /\
   plookup has [] 3 (m ++ d) false [("", "Gauge"); ("", "Sensor")] ("", "Gauge") = Some (Some ("", "Sensor"), [("", "Sensor")]).
+Proof. vm_compute. split; reflexivity. Qed.
+
+(* the walk over a consistently renamed inheritance map, method table and visited set, from the renamed class, gives
+   the renamed answer: same order of visits, same class found, same nodes left unvisited *)
+Theorem C27_rename : forall (has has' : node -> bool -> bool) builtin (phi : node -> node),
+  (forall a b, fc_eqb (phi a) (phi b) = fc_eqb a b) ->
+  (forall n, norm builtin (phi n) = phi (norm builtin n)) ->
+  (forall n b, has' (phi n) b = has n b) ->
+  forall m f static uv n,
+  plookup has' builtin f (rename_map phi m) static (map phi uv) (phi n)
+  = rename_res phi (plookup has builtin f m static uv n).
+Proof. exact plookup_rename. Qed.
+Print Assumptions C27_rename.
+
+(* wrapping in `module M`: no hypothesis on the renaming is left — it is injective for every M and every frame *)
+Theorem C27_wrap : forall (has has' : node -> bool -> bool) (M : string) m f static uv n,
+  (forall x b, has' (wrap_frame M x) b = has x b) ->
+  plookup has' [] f (rename_map (wrap_frame M) m) static (map (wrap_frame M) uv) (wrap_frame M n)
+  = rename_res (wrap_frame M) (plookup has [] f m static uv n).
+Proof. exact plookup_wrap. Qed.
+Print Assumptions C27_wrap.
+
+(* non-vacuity: Gauge < Sensor and Inner::Dial < Gauge at top level; wrapped in module M the walk from M::Inner::Dial
+   finds the method in M::Sensor and leaves the same (renamed) nodes unvisited *)
+Example C27_wrap_example :
+  let has := fun n (_ : bool) => fc_eqb n ("", "Sensor") in
+  let has' := fun n (_ : bool) => fc_eqb n ("M", "Sensor") in
+  let sup f c := {| pn_frame := f; pn_class := c; pn_include := false; pn_extend := false |} in
+  let m := [(("", "Gauge"), [sup "" "Sensor"]); (("Inner", "Dial"), [sup "" "Gauge"]); (("", "Sensor"), [])] in
+  let uv := [("Inner", "Dial"); ("", "Gauge"); ("", "Sensor"); ("", "Other")] in
+  plookup has [] 5 m false uv ("Inner", "Dial") = Some (Some ("", "Sensor"), [("", "Sensor"); ("", "Other")]) /\
+  plookup has' [] 5 (rename_map (wrap_frame "M") m) false (map (wrap_frame "M") uv) ("M::Inner", "Dial")
+    = Some (Some ("M", "Sensor"), [("M", "Sensor"); ("M", "Other")]).
 Proof. vm_compute. split; reflexivity. Qed.
